@@ -13,6 +13,15 @@ Tie of coq/model/Chan.v + Spawn.v to /repo (every run):
   D  spawn scenarios (go / spawn() / fn.spawn() / builtin.spawn() / a host calling object.Spawn from Go, results,
      raised errors, Go panics, several waiters, variables reassigned and the passed slice overwritten after the spawn
      site) against the extracted `predict`;
+  D2 launcher functions whose closures over private locals are started as threads;
+  D3 launch matrix: every kind of callable that can be launched (script function, closure, the result of a call, a bound
+     method of a list with a script callback - each / map / filter -, a builtin with a script callback - try / call /
+     sorted) x every way of launching (go, spawn(f, args), f.spawn(args)) x every way of writing an argument at the
+     launch site (variable reassigned afterwards, literal, arithmetic, calls of script functions and builtins, nested
+     calls, method calls, index expressions, a call with a recorded side effect), while the launching code goes on
+     computing and receiving: parameters seen by the launched call, order of the side effects around the launch,
+     exactly-once / per-sender order, the launcher's own sum and the wait() results, against expectations computed from
+     the scenario (oracle only);
   E  2..4 goroutines ranging over one channel, 20000 messages (the class repaired by 0f2710a: regression stage);
   F  a sample of B, D and E in a -race build;
   G  keys(ch) / map(ch) consumers (object.IterNextEntry): one next to receive() users, and several at once on one channel
@@ -560,6 +569,225 @@ def launch_oracle(sc, resp):
     return None
 
 
+
+# ------------------------------------------------------------------ launch matrix: every kind of callable x every way of launching,
+# ------------------------------------------------------------------ argument expressions evaluated at the launch site
+
+LM_KINDS = ["fn", "closure", "mk", "each", "map", "filter", "try", "call", "sorted"]
+LM_FORMS = ["go", "spawn", "fnspawn"]
+LM_ARGS = ["var", "lit", "arith", "call", "nested", "len", "method", "index", "snap", "tick", "callcall"]
+LM_PRELUDE = [
+    "func addk(a, k) { return a + k }",
+    'func tick(v) { rec("t", v); return v }',
+    "func upto(n) { r := []; for i := 0; i < n; i++ { r.append(i) }; return r }",
+    "func mkc(v) { return func() { return v } }",
+    "func worker(t, b, items) { rec2(\"p\", t, [b, len(items)]); for _, x := range items { out <- (t * %d + b * 1000 + x) }; return b }" % M,
+    "func mkworker(t) { return func(b, items) { rec2(\"p\", t, [b, len(items)]); for _, x := range items { out <- (t * %d + b * 1000 + x) }; return b } }" % M,
+    "func mkcb(t, b) { return func(x) { out <- (t * %d + b * 1000 + x); return x + 1 } }" % M,
+    "func mkflt(t, b) { return func(x) { out <- (t * %d + b * 1000 + x); return x %% 2 == 0 } }" % M,
+    "func mkthunk(t, b, items) { return func() { for _, x := range items { out <- (t * %d + b * 1000 + x) }; return b } }" % M,
+    "func mkcmp() { return func(a, c) { return a > c } }",
+]
+
+
+def gen_matrix(rng):
+    """1..3 threads; each: what is launched (script function, closure, the result of a call, a bound method of a list with a
+    script callback, a builtin with a script callback), how (go / spawn() / .spawn()), and how the arguments are written at
+    the launch site (variables reassigned afterwards, calls of script functions and builtins, method calls, index
+    expressions, nested calls, a call with a visible side effect)"""
+    ths = []
+    for _ in range(1 + rng.below(3)):
+        kind = rng.choice(LM_KINDS)
+        form = rng.choice(LM_FORMS)
+        ths.append({"kind": kind, "form": form, "n": rng.choice([1, 3, 20, 120]), "b": 5 + rng.below(900),
+                    "barg": rng.choice(LM_ARGS), "items": rng.choice(["var", "call", "slice"]),
+                    "cb": rng.choice(["var", "call", "lit"])})
+    return {"threads": ths, "cap": rng.below(9), "work": rng.choice([0, 3, 20]), "infunc": rng.chance(1, 3)}
+
+
+def matrix_sends(th):
+    return th["kind"] != "sorted"
+
+
+def matrix_script(sc):
+    L = ["out := chan(%d)" % sc["cap"] if sc["cap"] > 0 else "out := chan()"] + list(LM_PRELUDE) + ["big := upto(120)"]
+    B = []          # the part that may live inside a function
+    waits = []
+    for t, th in enumerate(sc["threads"]):
+        b, n, kind, form = th["b"], th["n"], th["kind"], th["form"]
+        pre, after = [], []
+        # ---- the expression that stands for b at the launch site
+        a = th["barg"]
+        if kind in ("each", "map", "filter") and th["cb"] == "lit" or kind == "sorted":
+            bexp = None
+        elif a == "var":
+            pre.append("bv%d := %d" % (t, b)); bexp = "bv%d" % t; after.append("bv%d = 1" % t)
+        elif a == "lit":
+            bexp = str(b)
+        elif a == "arith":
+            pre.append("bv%d := %d" % (t, b - 1)); bexp = "bv%d + 1" % t; after.append("bv%d = 1" % t)
+        elif a == "call":
+            pre.append("bv%d := %d" % (t, b - 3)); bexp = "addk(bv%d, 3)" % t; after.append("bv%d = 1" % t)
+        elif a == "nested":
+            pre.append("bv%d := %d" % (t, b - 4)); bexp = "addk(addk(bv%d, 1), 3)" % t; after.append("bv%d = 1" % t)
+        elif a == "len":
+            pre.append("pr%d := upto(%d)" % (t, b)); bexp = "len(pr%d)" % t; after.append("pr%d.append(0)" % t)
+        elif a == "method":
+            pre.append('mp%d := {"k": %d}' % (t, b)); bexp = 'mp%d.get("k")' % t; after.append('mp%d["k"] = 1' % t)
+        elif a == "index":
+            pre.append("pr%d := [0, %d, 0]" % (t, b)); bexp = "pr%d[1]" % t; after.append("pr%d[1] = 1" % t)
+        elif a == "snap":
+            pre.append("bv%d := %d" % (t, b)); pre.append("snap%d := func() { return bv%d }" % (t, t))
+            bexp = "snap%d()" % t; after.append("bv%d = 1" % t)
+        elif a == "tick":
+            bexp = "tick(%d)" % b
+        else:
+            bexp = "mkc(%d)()" % b
+        # ---- the items
+        if th["items"] == "var":
+            pre.append("items%d := upto(%d)" % (t, n)); iexp = "items%d" % t
+        elif th["items"] == "call":
+            iexp = "upto(%d)" % n
+        else:
+            iexp = "big[:%d]" % n
+        # ---- callee and arguments
+        if kind == "fn":
+            callee, args = "worker", "%d, %s, %s" % (t, bexp, iexp)
+        elif kind == "closure":
+            pre.append("w%d := mkworker(%d)" % (t, t)); callee, args = "w%d" % t, "%s, %s" % (bexp, iexp)
+        elif kind == "mk":
+            callee, args = "mkworker(%d)" % t, "%s, %s" % (bexp, iexp)
+        elif kind == "call":
+            callee, args = "call", "worker, %d, %s, %s" % (t, bexp, iexp)
+        elif kind == "try":
+            if th["cb"] == "var":
+                pre.append("th%d := mkthunk(%d, %s, %s)" % (t, t, bexp, iexp)); args = "th%d" % t; after.append("th%d = nil" % t)
+            else:
+                args = "mkthunk(%d, %s, %s)" % (t, bexp, iexp)
+            callee = "try"
+        elif kind == "sorted":
+            callee, args = "sorted", "%s, mkcmp()" % iexp
+        else:
+            mk = "mkflt" if kind == "filter" else "mkcb"
+            if th["cb"] == "var":
+                pre.append("cb%d := %s(%d, %s)" % (t, mk, t, bexp)); args = "cb%d" % t; after.append("cb%d = nil" % t)
+            elif th["cb"] == "call":
+                args = "%s(%d, %s)" % (mk, t, bexp)
+            else:
+                ret = "x % 2 == 0" if kind == "filter" else "x + 1"
+                args = "func(x) { out <- (%d + x); return %s }" % (t * M + b * 1000, ret)
+            callee = "%s.%s" % (iexp, kind)
+        B += pre
+        B.append('rec("t", "pre%d")' % t)
+        if form == "go":
+            B.append("go %s(%s)" % (callee, args))
+        elif form == "spawn":
+            B.append("h%d := spawn(%s, %s)" % (t, callee, args)); waits.append(t)
+        else:
+            B.append("h%d := %s.spawn(%s)" % (t, callee, args)); waits.append(t)
+        B.append('rec("t", "post%d")' % t)
+        B += after
+    total = sum(th["n"] for th in sc["threads"] if matrix_sends(th))
+    B.append("acc := 0")
+    B.append('for i := 0; i < %d; i++ { v := <-out; for j := 0; j < %d; j++ { acc = addk(acc, j) }; rec("g", v) }' % (total, sc["work"]))
+    B.append('rec2("w", "acc", acc)')
+    B.append('rec2("w", "waits", [%s])' % ", ".join("h%d.wait()" % t for t in waits))
+    if sc["infunc"]:
+        L.append("func main_() {\n    " + "\n    ".join(B) + "\n}")
+        L.append("main_()")
+    else:
+        L += B
+    L.append('"done"')
+    return "\n".join(L)
+
+
+def matrix_expect(sc):
+    tlog, params, sends, waits = [], {}, {}, []
+    for t, th in enumerate(sc["threads"]):
+        b, n, kind = th["b"], th["n"], th["kind"]
+        lit_cb = kind in ("each", "map", "filter") and th["cb"] == "lit"
+        ticks = th["barg"] == "tick" and not lit_cb and kind != "sorted"
+        early = kind in ("each", "map", "filter", "try") and th["cb"] == "var"     # the callback was built by an earlier statement
+        if ticks and early:
+            tlog.append(b)
+        tlog.append("s:pre%d" % t)
+        if ticks and not early:
+            tlog.append(b)
+        tlog.append("s:post%d" % t)
+        if kind in ("fn", "closure", "mk", "call"):
+            params[t] = [b, n]
+        sends[t] = [t * M + b * 1000 + x for x in range(n)] if matrix_sends(th) else []
+        if th["form"] != "go":
+            if kind in ("fn", "closure", "mk", "call", "try"):
+                waits.append(b)
+            elif kind == "each":
+                waits.append(None)
+            elif kind == "map":
+                waits.append([x + 1 for x in range(n)])
+            elif kind == "filter":
+                waits.append([x for x in range(n) if x % 2 == 0])
+            else:
+                waits.append(list(range(n))[::-1])
+    total = sum(len(v) for v in sends.values())
+    acc = total * (sc["work"] * (sc["work"] - 1) // 2)
+    return tlog, params, sends, waits, acc
+
+
+def matrix_oracle(sc, resp):
+    """-> (why or None, definite).  definite = the recorded facts themselves contradict the property; not definite = the
+    evaluation did not finish before its deadline and nothing recorded so far is wrong (to be observed again, alone)"""
+    tlog, params, sends, waits, acc = matrix_expect(sc)
+    logs = resp.get("logs") or {}
+    err = resp.get("error")
+    timed_out = bool(err) and ("context deadline exceeded" in err or "context canceled" in err or err.startswith("HANG")) or \
+        (not err and resp.get("ctx_done") and resp.get("result") != "s:done")
+    # 1. the arguments the launched calls received
+    for t, p in logs.get("p", []):
+        if not isinstance(t, int) or t not in params:
+            return "a launched call recorded parameters %r under thread id %r: no such launch" % (p, t), True
+        if p != params[t]:
+            return ("thread %d (%s, started with %s, argument written as `%s`) received the parameters %r; the values at the launch "
+                    "site were %r" % (t, sc["threads"][t]["kind"], sc["threads"][t]["form"], sc["threads"][t]["barg"], p, params[t])), True
+    seen = [t for t, _ in logs.get("p", [])]
+    if len(seen) != len(set(seen)):
+        return "a launched call ran more than once: parameter records %r" % (logs.get("p"),), True
+    # 2. argument expressions are evaluated at the launch site, by the launching thread, once
+    got_t = logs.get("t", [])
+    done = not err and resp.get("result") == "s:done"
+    if got_t != tlog[:len(got_t)] or (done and got_t != tlog):
+        return ("the launching code logged %r around its launches; with every argument expression evaluated at the launch site, once, "
+                "in order, it logs %r" % (got_t, tlog)), True
+    # 3. values: exactly once, per-sender order
+    per = {}
+    for v in logs.get("g", []):
+        if not isinstance(v, int) or v // M not in sends:
+            return "the launching code received %r, which nobody sent" % (v,), True
+        per.setdefault(v // M, []).append(v)
+    for t, vs in per.items():
+        if vs != sends[t][:len(vs)]:
+            k = next(i for i in range(len(vs)) if i >= len(sends[t]) or vs[i] != sends[t][i])
+            return ("thread %d (%s, started with %s) sends %s... in this order; the receiver got %r at position %d of that thread's values "
+                    "(lost, duplicated, reordered or wrong value)" % (t, sc["threads"][t]["kind"], sc["threads"][t]["form"],
+                                                                      sends[t][:4], vs[k], k)), True
+    if err and not timed_out:
+        return "evaluation failed: %s" % err, True
+    if timed_out:
+        n_got = len(logs.get("g", []))
+        return ("the evaluation did not finish before its deadline: the launching code had received %d of the %d values its threads "
+                "send and was still waiting (error: %s)" % (n_got, sum(len(v) for v in sends.values()), err)), False
+    if resp.get("result") != "s:done":
+        return "the launching code ended with %r instead of running to its last statement" % (resp.get("result"),), True
+    for t in sends:
+        if per.get(t, []) != sends[t]:
+            return "thread %d: %d of %d values arrived" % (t, len(per.get(t, [])), len(sends[t])), True
+    w = dict((k, v) for k, v in logs.get("w", []) if isinstance(k, str))
+    if w.get("s:acc") != acc:
+        return "the launching code's own sum is %r, its loop computes %d (its own execution was disturbed)" % (w.get("s:acc"), acc), True
+    if w.get("s:waits") != waits:
+        return "wait() gave %r; the launched calls return %r" % (w.get("s:waits"), waits), True
+    return None, True
+
+
 # ------------------------------------------------------------------ running the two sides
 
 def run_impl(exe, reqs, timeout):
@@ -925,6 +1153,59 @@ def _body(res, tier, obs, model, proved):
         nontrivial.add(("L", json.dumps(sc, sort_keys=True)))
     stats["D2_launch"] = {"cases": len(lcs), "ok": lok}
 
+
+    # ---------------- D3: launch matrix (callable kinds x launch forms x argument expressions; oracle only)
+    nm = 1500 if quick else 20000
+    mcs = [gen_matrix(rng) for _ in range(nm)]
+    reqs = [{"id": "M%d" % k, "src": matrix_script(sc), "procs": [1, 2, 16][k % 3], "yield": 0, "timeout_ms": 4000}
+            for k, sc in enumerate(mcs)]
+    C.log("C10/D3: launch matrix")
+    # a first batch decides quickly when launching is broken (every broken scenario waits for its deadline)
+    mhead = 64
+    mres, fails = run_impl_sharded(obs, reqs[:mhead], C.NCPU, 600)
+    if not any(mres.get("M%d" % k) is None or matrix_oracle(sc, mres["M%d" % k])[0] for k, sc in enumerate(mcs[:mhead])):
+        more, fails2 = run_impl_sharded(obs, reqs[mhead:], C.NCPU, 600)
+        mres.update(more)
+    else:
+        mcs = mcs[:mhead]
+    mok = 0
+    redo = []
+    for k, sc in enumerate(mcs):
+        st["evals"] += 1
+        r = mres.get("M%d" % k)
+        case = {"stage": "D3-launch-matrix", "scenario": sc}
+        if r is None:
+            corr.append(dict(case, impl="no answer"))
+            continue
+        why, definite = matrix_oracle(sc, r)
+        if why and definite:
+            oracle_viol.append(dict(case, impl=r.get("logs"), why=why, src=matrix_script(sc)))
+        elif why:
+            redo.append(k)
+        else:
+            mok += 1
+        for th in sc["threads"]:
+            nontrivial.add(("M", th["kind"], th["form"], th["barg"] if th["kind"] not in ("sorted",) else "-"))
+        if k < 1:
+            samples.append(dict(case, src=matrix_script(sc)))
+    # an evaluation that ran into its deadline is not an observation: such scenarios run again, one at a time, with a long deadline
+    redone = 0
+    have_definite = any(v.get("stage") == "D3-launch-matrix" for v in oracle_viol)
+    for k in ([] if have_definite else redo[:3]):
+        sc = mcs[k]
+        rc_, rr, _e = run_impl(obs, [{"id": "R", "src": matrix_script(sc), "procs": [1, 2, 16][k % 3], "yield": 0, "timeout_ms": 15000}], 120)
+        r = rr.get("R")
+        redone += 1
+        if r is None:
+            continue
+        why, definite = matrix_oracle(sc, r)
+        if why:
+            oracle_viol.append({"stage": "D3-launch-matrix", "scenario": sc, "impl": r.get("logs"), "src": matrix_script(sc),
+                                "why": why + (" [second observation, alone, deadline 15 s]" if not definite else "")})
+        else:
+            mok += 1
+    stats["D3_launch_matrix"] = {"cases": len(mcs), "ok": mok, "ran_into_deadline_first_time": len(redo), "observed_again": redone}
+
     if fresh_violation():
         return finish()
     C.log("C10/E: several goroutines ranging over one channel")
@@ -1043,6 +1324,8 @@ def _body(res, tier, obs, model, proved):
         rcases.append(("spawn", sc, spawn_script(sc)))
     multi = dict(wit_cfg, counts=[3000], rkinds=["range_v", "range_kv"])
     rcases.append(("multi", multi, topo_script(multi)))
+    for sc in mcs[:(12 if quick else 100)]:
+        rcases.append(("matrix", sc, matrix_script(sc)))
 
     def race_one(item):
         kind, cfg, src = item
@@ -1092,8 +1375,16 @@ def _finish(res, evals, nontrivial, samples, stats, corr, oracle_viol, known, kn
                    "in the script and in the host builtins; any number of ranging receivers. C: topologies with <= 3 messages, run "
                    "repeatedly, observed outcome must be among the outcomes of ALL model schedules (enumerated). D: spawn "
                    "scenarios (5 spawn forms, return / raised error / Go panic, 1..3 waiters, reassignments and slice overwrites "
-                   "after the spawn site). E: 2..4 goroutines ranging over one channel, 20000 messages. "
-                   "F: a sample of B and D and one E topology in a -race build, one process per case. G: one or several goroutines "
+                   "after the spawn site). D2: launcher functions whose closures over "
+                   "private locals are started as threads. D3: launch matrix - 1..3 threads per scenario, each a script function / "
+                   "closure / result of a call / bound method of a list with a script callback (each, map, filter) / builtin with a "
+                   "script callback (try, call, sorted), started with go / spawn() / .spawn(), its arguments written as variables "
+                   "reassigned afterwards, literals, arithmetic, calls of script functions and builtins (nested too), method calls, "
+                   "index expressions, a call with a recorded side effect, while the launching code goes on computing and receiving: "
+                   "parameters seen by the launched call, order of side effects around the launch, exactly-once / per-sender order of "
+                   "the values, the launcher's own sum and the wait() results against expectations computed from the scenario. "
+                   "E: 2..4 goroutines ranging over one channel, 20000 messages. "
+                   "F: a sample of B, D, D3 and one E topology in a -race build, one process per case. G: one or several goroutines "
                    "consuming the channel with map(ch). "
                    "Non-trivial = distinct A histories containing nil / end / error / blocking / range events, B topologies with "
                    "more than one message and more than one party, distinct observed C outcomes, D scenarios with a "
@@ -1244,7 +1535,13 @@ def replay(data):
         if r is None:
             print("no answer", err[-500:])
             continue
-        if data.get("stage", "").startswith(("B", "C", "E")) and cfg:
+        if data.get("stage", "").startswith("D3") and data.get("scenario"):
+            why, definite = matrix_oracle(data["scenario"], r)
+            print("attempt %d: %s" % (attempt, why or "property holds on this run"))
+            if why:
+                print(json.dumps(r)[:1500])
+                return 1
+        elif data.get("stage", "").startswith(("B", "C", "E")) and cfg:
             why, facts = topo_oracle(cfg, r)
             print("attempt %d: %s %s" % (attempt, why or "property holds on this run", facts))
             if why:
